@@ -62,3 +62,66 @@ V("C17-t3", "C17", (FILE, "    if global_config.high_compat_mode:\n        raise
 V("C17-t4", "C17", (HCM, "    try:\n        yield\n    finally:\n        global_config.high_compat_mode = arch",
                     "    try:\n        yield\n    except BaseException:\n        global_config.high_compat_mode = arch\n        raise\n    else:\n        global_config.high_compat_mode = arch"),
   "silent", "handler-plus-reraise instead of finally")
+
+# ---------------------------------------------------------------------------------------------- C01 / C02 / C15
+LRB = "logical_record/core/logical_record/logical_record_bytes.py"
+WR = "file/writer.py"
+SA = "logical_record/core/logical_record/segment_attributes.py"
+SUL = "logical_record/misc/storage_unit_label.py"
+CONV = "utils/internal/converters.py"
+
+V("C01-b1", "C01", (LRB, "        if (size + n_pad_bytes) % 2:\n            n_pad_bytes += 1\n", ""), "R01.5",
+  "no pad byte for odd bodies: odd segment sizes")
+V("C01-b2", "C01", (LRB, "            size += n_pad_bytes\n            segment_attributes.has_padding = True\n",
+                    "            size += n_pad_bytes\n"), "R01.5", "pad bytes appended without the padding flag")
+V("C01-b3", "C01", (WR, "self._visible_record_length - 8", "self._visible_record_length - 6"), ["R01.5", "R01.7"],
+  "capacity two bytes too large: a full odd/even segment overflows the record")
+V("C01-b4", "C01", (WR, "        size += 4  # 4 header bytes will be added", "        size += 2  # 4 header bytes will be added"),
+  "R01.7", "visible record length field two bytes short")
+V("C01-b5", "C01", (SUL, "bts = _susn_as_bytes + _dlisv_as_bytes + _sus_as_bytes + _mrl_as_bytes + _ssi_as_bytes",
+                    "bts = _susn_as_bytes + _sus_as_bytes + _dlisv_as_bytes + _mrl_as_bytes + _ssi_as_bytes"),
+  "R01.1", "two label fields swapped (length still 80)")
+V("C01-b6", "C01", (SA, "weights = [2 ** i for i in range(8)][::-1]", "weights = [2 ** i for i in range(8)]"),
+  ["R01.6", "R01.5"], "bit weights not reversed")
+V("C01-b7", "C01", (WR, "        if vrl % 2:\n            raise ValueError(\"Visible record length must be an even number\")\n", ""),
+  ["R01.4", "R01.5", "R01.7"], "odd record lengths accepted")
+V("C01-b8", "C01", (LRB, "new_bts += n_pad_bytes * RepC.USHORT.convert(n_pad_bytes)", "new_bts += n_pad_bytes * self.padding"),
+  "R01.5", "pad bytes always 0x01: wrong pad count for short segments")
+V("C01-b9", "C01", (LRB, "n_pad_bytes = max(16 - size, 0)", "n_pad_bytes = max(14 - size, 0)"), "R01.5",
+  "minimum segment length 14")
+V("C01-b10", "C01", (WR, "        if vrl > 16384:", "        if vrl > 16386:"), "R01.4", "record length 16386 accepted")
+V("C01-b12", "C01", (SUL, "get_ascii_bytes(self.set_identifier, 60, justify_left=True)",
+                     "get_ascii_bytes(self.set_identifier, 59, justify_left=True)"), "R01.1", "label 79 bytes")
+V("C01-b13", "C01", (LRB, "RepC.UNORM.convert(size) + segment_attributes.to_struct() + self._lr_type_struct",
+                     "RepC.UNORM.convert(size) + self._lr_type_struct + segment_attributes.to_struct()"), "R01.5",
+  "attribute and type bytes swapped in the segment header")
+V("C01-b14", "C01", (WR, "return RepresentationCode.UNORM.convert(size) + self._fmt_version + body",
+                     "return RepresentationCode.UNORM.convert(size - 4) + self._fmt_version + body"), "R01.7",
+  "visible record length excludes its header")
+V("C01-b15", "C01", (WR, "RepresentationCode.USHORT.convert(255) + RepresentationCode.USHORT.convert(1)",
+                     "RepresentationCode.USHORT.convert(255) + RepresentationCode.USHORT.convert(0)"), "R01.7",
+  "format version FF 00")
+V("C01-b16", "C01", (SA, "        self._value[7] = b", "        self._value[6] = b"), ["R01.6", "R01.5"],
+  "padding setter writes the trailing-length bit")
+V("C01-b17", "C01", (WR, "output.add_bytes(self._make_visible_record(segment, segment_size))",
+                     "output.add_bytes(self._make_visible_record(segment, segment_size), segment_size)"), "R01.8",
+  "buffer told a size 4 bytes short")
+V("C01-b18", "C01", (FILE, "            writer.write_storage_unit_label(self.storage_unit_label)\n            writer.write_logical_records(\n                logical_records, output_chunk_size=output_chunk_size\n            )",
+                     "            writer._sul_written = True\n            writer.write_logical_records(\n                logical_records, output_chunk_size=output_chunk_size\n            )\n            writer.write_storage_unit_label(self.storage_unit_label)"),
+  "R01.2", "label written after the records")
+V("C01-b19", "C01", (FILE, "visible_record_length=self.storage_unit_label.max_record_length,", "visible_record_length=8192,"),
+  "R01.3", "writer ignores the record length declared in the label")
+V("C01-b20", "C01", (LRB, "            n_bytes = min(remaining_size, max_n_bytes)  # size of the current (to be created) segment body",
+                     "            n_bytes = min(remaining_size, max_n_bytes + 1)"), ["R01.5", "R01.7"],
+  "segment body one byte over the capacity")
+V("C01-b21", "C01", (CONV, "    padding = (required_length - lv) * ' '", "    padding = (required_length - lv - 1) * ' '"),
+  "R01.1", "fixed-width fields one character short when padded")
+V("C01-t1", "C01", (LRB, "            size += n_pad_bytes\n", "            size = size + n_pad_bytes\n"), "silent", "")
+V("C01-t2", "C01", (LRB, "n_pad_bytes = max(16 - size, 0)", "n_pad_bytes = 16 - size if size < 16 else 0"), "silent", "")
+V("C01-t3", "C01", [(WR, "        max_lr_segment_size = self._visible_record_length - 8", "        capacity = self._visible_record_length - 4 - 4"),
+                    (WR, "make_segments(max_lr_segment_size)", "make_segments(capacity)")], "silent", "")
+V("C01-t4", "C01", (LRB, "            n_bytes = min(remaining_size, max_n_bytes)  # size of the current (to be created) segment body",
+                    "            n_bytes = remaining_size if remaining_size <= max_n_bytes else max_n_bytes"), "silent", "")
+V("C01-t5", "C01", (LRB, "        if (size + n_pad_bytes) % 2:", "        if (size + n_pad_bytes) % 2 == 1:"), "silent", "")
+V("C01-t6", "C01", (WR, "        if vrl < 20:\n            raise ValueError(\"Visible record length must be at least 20 bytes\")\n\n        if vrl > 16384:\n            raise ValueError(\"Visible record length cannot be larger than 16384 bytes\")\n",
+                    "        if not 20 <= vrl <= 16384:\n            raise ValueError(\"Visible record length must be within 20..16384 bytes\")\n"), "silent", "")
